@@ -351,6 +351,27 @@ func c20Calls(thorough bool) []jcall {
 			add("fractional-at-bounds", "generateTOTP", u, ts, "6", al, 30)
 		}
 	}
+	// windows that reach below step / counter 0 (instants in the first s steps, counters below s): the native TOTP
+	// validator computes its window modulo 2^64, the native HOTP validator cuts it at 0 - the binding must give the
+	// native verdict in both cases, whatever that is
+	for _, al := range []string{"SHA1", "SHA512"} {
+		an := refAlgo(al)
+		for _, sk := range []int{1, 2, 10} {
+			for _, per := range []int64{30, 1, 60} {
+				for _, ts := range []int64{0, 1, 29, 30, 59, 299} {
+					st := int64(ref.Step(ts, uint64(per)))
+					for _, dist := range []int64{-int64(sk) - 1, -int64(sk), -1, 0, int64(sk)} {
+						add("below-zero", "validateTOTP", u, ref.HOTP(c20Key, uint64(st+dist), 6, an), ts, "6", al, sk, per)
+					}
+				}
+			}
+			for _, c := range []int64{0, 1, 2, 9} {
+				for _, dist := range []int64{-int64(sk) - 1, -int64(sk), -1, 0, int64(sk)} {
+					add("below-zero", "validateHOTP", u, ref.HOTP(c20Key, uint64(c+dist), 6, an), c, "6", al, sk)
+				}
+			}
+		}
+	}
 	// other spellings of a genuine code: a sign or blank for a leading zero, a leading zero dropped, letters for digits,
 	// other digit scripts - a validator that reads the code as a NUMBER accepts some of them
 	for _, d := range []string{"6", "8"} {
